@@ -82,6 +82,33 @@ def mutants_of_expr(e):
         m = copy.deepcopy(e)
         m.args = [ast.BinOp(left=m.args[0], op=ast.Add(), right=ast.Constant(value=1))]
         yield f"{e.func.id}(x)->(x+1)", m
+    SIB = {"r_stb": "w_stb", "w_stb": "r_stb", "r_data": "w_data", "w_data": "r_data", "start": "stop", "stop": "start", "set": "clr", "clr": "set",
+           "readable": "writable", "writable": "readable", "addr_width": "data_width", "data_width": "addr_width", "err": "rty", "rty": "err",
+           "cyc": "stb", "stb": "cyc", "dat_r": "dat_w", "dat_w": "dat_r", "enable": "pending", "pending": "enable", "r_en": "w_en", "w_en": "r_en",
+           "_resources": "_windows", "_windows": "_resources", "_starts": "_stops", "_stops": "_starts", "granularity": "data_width",
+           "o": "oe", "oe": "o", "ack": "stall", "lock": "stb", "clear": "set", "i": "trg", "trg": "i"}
+    if isinstance(e, ast.Attribute) and isinstance(e.ctx, ast.Load) and e.attr in SIB:
+        m = copy.deepcopy(e)
+        m.attr = SIB[e.attr]
+        yield f"attr .{e.attr}->.{m.attr}", m
+    if isinstance(e, ast.Call) and isinstance(e.func, ast.Attribute) and e.func.attr == "Elif" and isinstance(e.func.value, ast.Name) and e.func.value.id == "m":
+        m = copy.deepcopy(e)
+        m.func.attr = "If"
+        yield "m.Elif->m.If", m
+    if isinstance(e, ast.Call) and isinstance(e.func, ast.Attribute) and e.func.attr == "If" and isinstance(e.func.value, ast.Name) and e.func.value.id == "m" \
+            and len(e.args) == 1:
+        m = copy.deepcopy(e)
+        m.args = [ast.UnaryOp(op=ast.Invert(), operand=m.args[0])]
+        yield "m.If(c)->m.If(~c)", m
+    if isinstance(e, ast.keyword if False else ast.Call) and e.keywords:
+        for i_, k_ in enumerate(e.keywords):
+            if k_.arg is not None and isinstance(k_.value, ast.Constant) and isinstance(k_.value.value, bool):
+                continue                                # covered by the constant operator
+            if k_.arg in ("name", "src_loc_at", "path"):
+                continue
+            m = copy.deepcopy(e)
+            del m.keywords[i_]
+            yield f"keyword {k_.arg}= dropped", m
     if isinstance(e, ast.Subscript) and isinstance(e.slice, ast.Slice) and e.slice.lower is None and e.slice.upper is not None:
         m = copy.deepcopy(e)
         m.slice = ast.Slice(lower=ast.Constant(value=1), upper=e.slice.upper, step=e.slice.step)
@@ -141,6 +168,22 @@ def generate(files):
                     continue
                 out.append({"file": rel, "line": n.lineno, "func": owner[id(n)], "op": desc,
                             "orig": ast.get_source_segment(src, n)[:60] if ast.get_source_segment(src, n) else "", "new": text[:60], "src": new_src})
+        # Python `if` tests negated / made unconditional
+        for f in ast.walk(tree):
+            if not isinstance(f, (ast.FunctionDef, ast.AsyncFunctionDef)):
+                continue
+            for st in ast.walk(f):
+                if isinstance(st, ast.If) and not any(isinstance(x, ast.Raise) for x in st.body[:1]):
+                    seg = ast.get_source_segment(src, st.test)
+                    if seg is None:
+                        continue
+                    for desc, text in (("if test negated", f"not ({seg})"), ("if test always true", "True")):
+                        try:
+                            new_src = "\n".join(splice(lines, st.test, text))
+                            ast.parse(new_src)
+                        except Exception:
+                            continue
+                        out.append({"file": rel, "line": st.lineno, "func": f.name, "op": desc, "orig": seg[:60], "new": text[:60], "src": new_src})
         # statement deletion: m.d.<dom> += ..., raise, x.append(...), plain calls
         for f in ast.walk(tree):
             if not isinstance(f, (ast.FunctionDef, ast.AsyncFunctionDef)):
@@ -209,10 +252,14 @@ def main():
     ap.add_argument("--files", default="")
     ap.add_argument("--out", default="/tmp/mutsweep.json")
     ap.add_argument("--recheck", default="")
+    ap.add_argument("--ops", default="", help="comma-separated prefixes of operator descriptions to keep")
     args = ap.parse_args()
     files = [f for f in args.files.split(",") if f] or sorted(
         os.path.relpath(os.path.join(d, f), REPO) for d, _, fs in os.walk(os.path.join(REPO, PKG)) for f in fs if f.endswith(".py") and f != "__init__.py")
     muts = generate(files)
+    if args.ops:
+        pref = tuple(args.ops.split(","))
+        muts = [m for m in muts if m["op"].startswith(pref)]
     random.Random(args.seed).shuffle(muts)
     muts = muts[:args.max]
     if args.recheck:
